@@ -238,6 +238,18 @@ func (w *World) Cleanup() {
 
 func (w *World) Now() time.Duration { return w.Net.Now() }
 
+// ProbeFailures counts probes whose result, as seen by the proxy, was a
+// failure (only possible through stalls when every script says "ok").
+func (w *World) ProbeFailures() int {
+	n := 0
+	for _, e := range w.Net.Events() {
+		if e.Kind == "probe-result" && !(e.Status >= 200 && e.Status <= 299) {
+			n++
+		}
+	}
+	return n
+}
+
 // HadStall reports whether the schedule of this execution let virtual time
 // pass while a thread was runnable.
 func (w *World) HadStall() bool {
